@@ -16,7 +16,7 @@ Lemma field_eval_tracing args fs :
 Proof.
   destruct fs as [p pa | cf]; simpl.
   - destruct (p_rtype pa), (p_ty pa); simpl; split; repeat constructor.
-  - destruct (cf_expr cf); simpl; split; repeat constructor.
+  - destruct (cf_expr cf) as [? ?|? ?|? ?| |? [| | |]]; simpl; split; repeat constructor.
 Qed.
 
 Lemma flat_map_Forall {A B} (P : B -> Prop) (g : A -> list B) l :
@@ -86,6 +86,13 @@ Ltac tracing_nil :=
   | |- context [xdrops (follows_part ?a ?s)] => rewrite (proj2 (all_tracing_facts _ (follows_tracing a s)))
   end.
 
+Lemma instr_drop_tracing r : Forall (fun e => is_tracing e = true) (instr_drop r).
+Proof. destruct r; repeat constructor. Qed.
+Lemma own_effects_instr_drop r : own_effects (instr_drop r) = [].
+Proof. apply own_effects_tracing, instr_drop_tracing. Qed.
+Lemma xdrops_instr_drop r : xdrops (instr_drop r) = [].
+Proof. apply xdrops_tracing, instr_drop_tracing. Qed.
+
 Lemma run_sync_sim c args f top l r lb lvb rb :
   run_sync c args f top = (l, r) ->
   exec_block args f (all_owned f) = (lb, lvb, rb) ->
@@ -130,7 +137,8 @@ Proof.
     { eapply Permutation_trans; [|exact Hp]. apply Permutation_app_head, Permutation_app_head.
       apply Permutation_sym, Permutation_rev. }
     destruct (span_on c (sp_level sp)); apply pair_equal_spec in HR as [<- <-]; (split; [exact Hr|]);
-      repeat rewrite ?own_effects_app, ?xdrops_app, ?wrap_own_effects, ?wrap_xdrops, ?own_effects_xdrop, ?xdrops_xdrop;
+      repeat rewrite ?own_effects_app, ?xdrops_app, ?wrap_own_effects, ?wrap_xdrops, ?own_effects_xdrop, ?xdrops_xdrop,
+        ?own_effects_instr_drop, ?xdrops_instr_drop;
       tracing_nil; simpl; rewrite ?app_nil_r; split; auto.
     rewrite <- app_assoc. exact P2.
 Qed.
